@@ -1103,6 +1103,11 @@ func (a *Agent) requestConnectivityCheck() {
 }
 
 func (a *Agent) addRemotePassiveTCPCandidate(remoteCandidate Candidate) {
+	// Active ICE-TCP candidates are host candidates: they follow the agent's candidate types.
+	if !slices.Contains(a.candidateTypes, CandidateTypeHost) {
+		return
+	}
+
 	_, localIPs, err := localInterfaces(
 		a.net,
 		a.interfaceFilter,
@@ -1140,25 +1145,42 @@ func (a *Agent) addRemotePassiveTCPCandidate(remoteCandidate Candidate) {
 			continue
 		}
 
+		// Like gathered host candidates: the mDNS name hides the IP in gather mode,
+		// otherwise location-tracking addresses are not published.
+		address := localIPs[i].addr.String()
+		isLocationTracked := false
+		if a.mDNSMode == MulticastDNSModeQueryAndGather {
+			address = a.mDNSName
+		} else {
+			isLocationTracked = shouldFilterLocationTrackedIP(localIPs[i].addr)
+		}
+
 		localCandidate, err := NewCandidateHost(&CandidateHostConfig{
-			Network:   remoteCandidate.NetworkType().String(),
-			Address:   localIPs[i].addr.String(),
-			Port:      tcpAddr.Port,
-			Component: ComponentRTP,
-			TCPType:   TCPTypeActive,
+			Network:           remoteCandidate.NetworkType().String(),
+			Address:           address,
+			Port:              tcpAddr.Port,
+			Component:         ComponentRTP,
+			TCPType:           TCPTypeActive,
+			IsLocationTracked: isLocationTracked,
 		})
+		if err == nil && a.mDNSMode == MulticastDNSModeQueryAndGather {
+			err = localCandidate.setIPAddr(localIPs[i].addr)
+		}
 		if err != nil {
 			closeConnAndLog(conn, a.log, "Failed to create Active ICE-TCP Candidate: %v", err)
 
 			continue
 		}
 
+		a.setCandidateExtensions(localCandidate)
 		localCandidate.start(a, conn, a.startedCh)
 		a.localCandidates[localCandidate.NetworkType()] = append(
 			a.localCandidates[localCandidate.NetworkType()],
 			localCandidate,
 		)
-		a.candidateNotifier.EnqueueCandidate(localCandidate)
+		if !localCandidate.filterForLocationTracking() {
+			a.candidateNotifier.EnqueueCandidate(localCandidate)
+		}
 
 		a.addPair(localCandidate, remoteCandidate)
 	}
